@@ -21,6 +21,16 @@ json.dump(kf, open(os.path.join(ROOT, "known_findings.json"), "w"), indent=1)
 nc_path = os.path.join(ROOT, "tools", "not_claimed.json")
 not_claimed = json.load(open(nc_path)) if os.path.exists(nc_path) else {}
 hooks = json.load(open(os.path.join(ROOT, "tools", "hooks.json")))
+try:
+    import subprocess
+    repo = os.path.join(os.path.dirname(ROOT), "repo")
+    out = subprocess.run(["git", "-C", repo, "log", "--reverse", "--format=%h", "--grep=^verif-hooks:"],
+                         capture_output=True, text=True).stdout.split()
+    if out:
+        hooks["source_commits"] = out
+        json.dump(hooks, open(os.path.join(ROOT, "tools", "hooks.json"), "w"))
+except Exception:
+    pass
 
 ENV = "RUSTUP_TOOLCHAIN=1.96.0 CARGO_NET_OFFLINE=true"
 man = {
